@@ -53,7 +53,7 @@ func (f *DoAllSymbols) Call(s *slip.Scope, args slip.List, depth int) slip.Objec
 	d2 := depth + 1
 
 	sargs, ok := args[0].(slip.List)
-	if !ok {
+	if !ok || len(sargs) == 0 {
 		slip.TypePanic(s, depth, "args", args[0], "list")
 	}
 	var (
